@@ -74,7 +74,14 @@ def exec_call(L, c, fresh, off, fill, seed):
     if f == "reim_to_znx64_simple":
         bnd = BOUND[c["ovh"]]
         x, r = P(16 * m), P(16 * m)
-        x.f64[:] = g.integers(-(1 << 39), 1 << 39, 2 * m).astype(np.float64) * dv + g.integers(0, 2, 2 * m) * (dv / 4)
+        # values for which the choice of the kernel matters: exact ties (the two accelerated kernels round them differently) and, when the
+        # declared bound allows it, magnitudes that only the wide kernel handles; a stale table then shows in the output bytes
+        mag = min(bnd, 61) - 1
+        v = g.integers(-(1 << 39), 1 << 39, 2 * m).astype(np.float64) + g.integers(0, 3, 2 * m) / 4.0       # fractions 0, 1/4, 1/2
+        if mag > 40:
+            big = g.integers(1 << (mag - 1), 1 << mag, 2 * m).astype(np.float64) * g.choice([-1.0, 1.0], 2 * m)
+            v = np.where(g.integers(0, 2, 2 * m) == 1, big, v)
+        x.f64[:] = v * dv
         if fresh:
             t = L.fn("new_reim_to_znx64_precomp", "p wdw")(m, dv, bnd)
             L.fn("reim_to_znx64", "v ppp")(t, r.addr, x.addr)
